@@ -214,6 +214,7 @@ func (t *topo) confMap() map[string]any {
 }
 
 type c20Sim struct {
+	shutFailPlanned bool // some components fail in Shutdown
 	r               *simkit.Run
 	w               *World
 	prov            *simProvider
@@ -273,6 +274,16 @@ func runC20(r *simkit.Run) {
 				}
 			}
 		}
+	}
+	if tp.Chance(1, 5) {
+		// components that fail in Shutdown (every generation they belong to): the failure is reported, the other
+		// components are shut down all the same; a reload that retires such a service fails for that reason
+		ks := compKeysOf(prov.next)
+		for i, n := 0, tp.Range(1, 2); i < n && len(ks) > 0; i++ {
+			w.plan(ks[tp.Draw(len(ks))]).FailShutdown = true
+		}
+		s.shutFailPlanned = true
+		r.Count("fault.component_shutdown_failure_planned")
 	}
 	initialFails := tp.Chance(1, 12)
 	s.initialFails = initialFails
@@ -710,7 +721,7 @@ func (s *c20Sim) finalChecks() {
 		s.w.mu.Lock()
 		planned := s.w.failStartAt[s.w.Gen] != ""
 		s.w.mu.Unlock()
-		if !bad && !planned {
+		if !bad && !planned && !(s.shutFailPlanned && strings.Contains(runErr.Error(), "failed to shutdown the retiring config")) {
 			r.Failf("reload", "failed-without-cause", "Run returned %v although the provider served a valid configuration and no component was planned to fail", runErr)
 		}
 	}
@@ -770,5 +781,5 @@ var HarnessC20 = simkit.Harness{
 	Prop: "C20", Name: "svc/c20", Run: runC20, StepTimeout: 20e9, HashInsensitive: true,
 	Real: append([]string{"otelcol.Collector (NewCollector, Run loop, reloadConfiguration, setupConfigurationComponents, Shutdown)", "otelcol.ConfigProvider + confmap.Resolver (watcher channel, closers)", "otelcol config unmarshalling and validation", "graph.Host fatal-error path to the async error channel"}, svcReal...),
 	Stub: append([]string{"confmap.Provider 'sim' serving generated configurations and owning the watcher", "OS signals (delivered through the tag-guarded VerifSendSignal hook)"}, svcStub...),
-	Rule: "one run = one collector Run as a task in the bubble with a generated initial configuration (occasionally invalid / unretrievable / failing to start) and a tape-drawn history of 3-18 external events: config change (valid, invalid, failing to start), config-watch error, SIGHUP, SIGTERM, SIGINT, Shutdown() calls from tasks, context cancellation, asynchronous fatal error from a started component, and releases of component Start/Shutdown calls that park (so that events accumulate while a reload is in progress); followed by a quiet phase in which everything parked is released; distinct = distinct event-log hash; non-trivial = an external event arrived while a component's Start/Shutdown was parked",
+	Rule: "one run = one collector Run as a task in the bubble with a generated initial configuration (occasionally invalid / unretrievable / failing to start) and a tape-drawn history of 3-18 external events: config change (valid, invalid, failing to start), config-watch error, SIGHUP, SIGTERM, SIGINT, Shutdown() calls from tasks, context cancellation, asynchronous fatal error from a started component, and releases of component Start/Shutdown calls that park; in 1 run in 5 one or two components fail in Shutdown (their errors wrap nothing, a deadline or cancellation error of their own, or a permanent error) (so that events accumulate while a reload is in progress); followed by a quiet phase in which everything parked is released; distinct = distinct event-log hash; non-trivial = an external event arrived while a component's Start/Shutdown was parked",
 }
